@@ -32,7 +32,7 @@ na = [{"property_id": p, "reason": NA.get(p, "check not built yet in this sessio
       for p in props if p not in CHECKS]
 m = {
     "version": 1,
-    "setup_cmd": "cd lean && lake build",
+    "setup_cmd": "/venv/bin/python harness/translate_all.py && cd lean && lake build",
     "hooks": {
         "guard": "JEZACHEN_SSEPY_VERIF",
         "enable": "no source hooks are needed: recorders, RNG control, HOME redirection, cleanup-delay control and crash interposition are applied by the harness from outside",
